@@ -78,6 +78,7 @@ def judge_unary32(rec, fname, g, x, oracle):
     rec.count("nan-domain:checked", int(nanexp.sum()))
     lim = ~numpy.isfinite(x) | (x == 0)
     rec.count("limits:checked", int(lim.sum()))
+    zero_sign(rec, fname, x, r, e, "float32")
     return d
 
 
@@ -113,8 +114,10 @@ def task_f32_range(params, rec):
 
 def task_f32_neigh(params, rec):
     oracle = mporacle.Oracle(numpy.float32)
-    x = neighbourhoods(numpy.float32, params["k"])
+    x = numpy.concatenate([neighbourhoods(numpy.float32, params["k"]), approach_points(numpy.float32, gen.rng_for(params.get("seed", 0), 23, 0), per=24)])
     for f in graph.REAL_FUNCS:
+        if f == "hypot":
+            continue
         judge_unary32(rec, f, graph.expanded(f, numpy.float32), x, oracle)
     rec.sample(dict(kind="float32 neighbourhoods", k=params["k"], points=int(x.size)))
 
@@ -173,6 +176,106 @@ def task_f64(params, rec):
     rec.sample(dict(kind="float64 sample", n=int(x.size), first=[x[0], x[1]]))
 
 
+def judge_unary64_dense(rec, fname, g, x, oracle, label):
+    """float64 in bulk: tier 1 = the 80-bit long double libm value rounded once (exact distance up to +-1 ULP), tier 2 = the multiprecision oracle for
+    every point whose tier-1 distance reaches the target - so millions of float64 inputs can be swept"""
+    dt = numpy.float64
+    with numpy.errstate(all="ignore"):
+        r = numpy.asarray(graph.interp_np(g, x)).astype(dt)
+        e = REF64[fname](x.astype(numpy.longdouble)).astype(dt)
+    d = exact.ulp_distance_arr(r, e)
+    rec.count("evaluations", x.size)
+    rec.count("judged:float64", x.size)
+    rec.count("judged:float64:" + label, x.size)
+    doubt = (d >= TARGET - 1) | (numpy.isnan(r) != numpy.isnan(e))
+    idx = numpy.flatnonzero(doubt)
+    if idx.size > 3000:
+        idx = idx[:: max(1, idx.size // 3000)]
+    f = exact.fmt(dt)
+    judged = []
+    for i in idx:
+        try:
+            res = oracle.real(fname, x[i])
+        except mporacle.Inconclusive:
+            rec.count("oracle:inconclusive")
+            continue
+        judged.append(i)
+        rec.count("tier2:rejudged")
+        if res[0] == "nan":
+            d[i] = 0 if numpy.isnan(r[i]) else (1 << 61)
+        elif res[0] == "inf":
+            d[i] = (1 << 61) if numpy.isnan(r[i]) else abs(exact.ordinal(r[i]) - res[1] * f.inf_bits)
+        else:
+            o = exact.ordinal(r[i])
+            d[i] = abs(o - res[1]) if o is not None else (1 << 61)
+    idx = numpy.asarray(judged, dtype=numpy.int64)
+    bad = numpy.zeros(x.size, dtype=bool)
+    if idx.size:
+        bad[idx] = d[idx] > BOUND[dt]
+    over = int((d[idx] > TARGET).sum()) if idx.size else 0
+    rec.count(f"over_target:{fname}:float64", over)
+    rec.count(f"n:{fname}:float64", x.size)
+    if bad.any():
+        i = int(numpy.flatnonzero(bad)[0])
+        kind = "nan-domain" if (numpy.isnan(r[i]) != numpy.isnan(e[i])) else ("limit" if not numpy.isfinite(x[i]) or x[i] == 0 else "ulp-bound")
+        rec.violation(f"real-{kind}:{fname}", dict(dtype="float64", function=fname, x=x[i], got=r[i], expected=e[i], ulps=int(min(d[i], 1 << 40)), workload=label), n=int(bad.sum()))
+    zero_sign(rec, fname, x, r, e, "float64")
+
+
+def zero_sign(rec, fname, x, r, e, dtn):
+    """'the exact limits at ... zero' for the two functions whose value is non-negative by definition: |-0| = +0 and (-0)^2 = +0 (a result with the sign
+    bit set is a negative number to copysign, 1/x, atan2).  The odd functions are deliberately not judged on the sign of a zero result: asinh(-0.0) is
+    sign(x) * r, and sign(-0.0) is +0 in the NumPy and Python targets and -0 in the C++, XLA and StableHLO ones - a convention, not a limit"""
+    if fname not in ("absolute", "square"):
+        return
+    z = (r == 0) & (e == 0)
+    if not z.any():
+        return
+    rec.count("limits:zero-sign-checked", int(z.sum()))
+    bad = z & (numpy.signbit(r) != numpy.signbit(e))
+    if bad.any():
+        i = int(numpy.flatnonzero(bad)[0])
+        rec.violation(f"real-zero-sign:{fname}", dict(dtype=dtn, function=fname, x=x[i], got=r[i], expected=e[i]), n=int(bad.sum()))
+
+
+def approach_points(dt, rng, per=6):
+    """t * (1 +- 2^-j u) for every threshold t and j = 1 .. p-1: a failure band that starts a relative distance 2^-j away from a switch point / singularity"""
+    f = exact.fmt(dt)
+    fi = numpy.finfo(dt)
+    big = float(fi.max)
+    ts = [1.0, 1.5, 0.5, 2.0, float(numpy.sqrt(dt(fi.max))), big / 2, big / 4, 2.0 ** (f.p - 2), 2.0 ** (f.p // 2), float(fi.eps) ** 0.5, float(fi.eps), 1 / float(fi.eps), float(fi.smallest_normal), float(numpy.sqrt(dt(fi.smallest_normal)))]
+    out = []
+    with numpy.errstate(all="ignore"):
+        for t in ts:
+            j = numpy.repeat(numpy.arange(1, f.p), per)
+            u = rng.uniform(1, 2, size=j.size)
+            for sg in (1, -1):
+                out.append(t * (1 + sg * 2.0 ** -j.astype(numpy.float64) * u))
+        a = numpy.concatenate(out)
+        a = numpy.concatenate([a, -a])
+        a = a[numpy.isfinite(a)].astype(dt)
+    return a
+
+
+def task_f64_dense(params, rec):
+    dt = numpy.float64
+    oracle = mporacle.Oracle(dt)
+    rng = gen.rng_for(params["seed"], 21, params["shard"])
+    n = params["n"]
+    with numpy.errstate(all="ignore"):
+        sweep = (rng.choice([-1.0, 1.0], size=n) * 2.0 ** rng.uniform(-70, 70, size=n)).astype(dt)
+        wide = (rng.choice([-1.0, 1.0], size=n // 4) * 2.0 ** rng.uniform(-1074, 1023.9, size=n // 4)).astype(dt)
+    appr = approach_points(dt, rng)
+    for f in graph.REAL_FUNCS:
+        if f == "hypot":
+            continue
+        g = graph.expanded(f, dt)
+        judge_unary64_dense(rec, f, g, sweep, oracle, "log-uniform-sweep")
+        judge_unary64_dense(rec, f, g, wide, oracle, "full-range-sweep")
+        judge_unary64_dense(rec, f, g, appr, oracle, "threshold-approach")
+    rec.sample(dict(kind="float64 dense", sweep=int(sweep.size), approach=int(appr.size)))
+
+
 def hypot_pairs(rng, dt, n):
     f = exact.fmt(dt)
     x = gen.random_bits(rng, dt, n)
@@ -223,7 +326,7 @@ def task_hypot(params, rec):
     rec.sample(dict(kind="hypot pairs", dtype=params["dtype"], x=X[0], y=Y[0]))
 
 
-TASKS = {"f32_range": task_f32_range, "f32_neigh": task_f32_neigh, "f64": task_f64, "hypot": task_hypot}
+TASKS = {"f32_range": task_f32_range, "f32_neigh": task_f32_neigh, "f64": task_f64, "f64_dense": task_f64_dense, "hypot": task_hypot}
 SHARD_TIMEOUT = {"quick": 1500, "thorough": 10000}
 
 
@@ -238,6 +341,8 @@ def plan(tier, seed):
         t.append(("f32_neigh", dict(k=4096)))
         t.append(("f64", dict(seed=seed, shard=0, n=1500, k=48)))
         t.append(("f64", dict(seed=seed, shard=1, n=1500, k=48)))
+        for s_ in range(2):
+            t.append(("f64_dense", dict(seed=seed, shard=s_, n=400000)))
         t.append(("hypot", dict(dtype="float32", seed=seed, shard=0, n=400000)))
         t.append(("hypot", dict(dtype="float64", seed=seed, shard=0, n=3000)))
     else:
@@ -248,6 +353,8 @@ def plan(tier, seed):
         t.append(("f32_neigh", dict(k=4096)))
         for s in range(16):
             t.append(("f64", dict(seed=seed, shard=s, n=12000, k=4096 if s == 0 else 64)))
+        for s in range(16):
+            t.append(("f64_dense", dict(seed=seed, shard=s, n=4000000)))
         for s in range(16):
             t.append(("hypot", dict(dtype="float32", seed=seed, shard=s, n=6000000)))
             t.append(("hypot", dict(dtype="float64", seed=seed, shard=s, n=20000)))
